@@ -991,6 +991,12 @@ class Rewriter:
         assert all(isinstance(x, (ArrayNode, FunctionNode)) for x in self.modified_nodes)
         assert all(isinstance(x, (ArrayNode, AssignmentNode, FunctionNode)) for x in self.to_remove_nodes)
         # Sort based on line and column in reversed order
+        def inside(a: BaseNode, b: BaseNode) -> bool:
+            # True when a is nested in b: re-printing b already covers a
+            return (a is not b and a.filename == b.filename and
+                    (b.lineno, b.colno) <= (a.lineno, a.colno) and
+                    (a.end_lineno, a.end_colno) <= (b.end_lineno, b.end_colno))
+        self.modified_nodes = [x for x in self.modified_nodes if not any(inside(x, y) for y in self.modified_nodes)]
         work_nodes = [{'node': x, 'action': 'modify'} for x in self.modified_nodes]
         work_nodes += [{'node': x, 'action': 'rm'} for x in self.to_remove_nodes]
         work_nodes = sorted(work_nodes, key=lambda x: (T.cast(BaseNode, x['node']).lineno, T.cast(BaseNode, x['node']).colno), reverse=True)
